@@ -12,6 +12,7 @@ import (
 
 	"github.com/tetratelabs/wazero"
 	"github.com/tetratelabs/wazero/api"
+	"github.com/tetratelabs/wazero/experimental"
 	"github.com/tetratelabs/wazero/internal/wasm"
 	"github.com/tetratelabs/wazero/internal/wasmruntime"
 	"github.com/tetratelabs/wazero/sys"
@@ -135,7 +136,7 @@ func newRT(w *World, engine string, sh *sharedCode, closeOnDone bool) (*rtWorld,
 	} else {
 		rc = wazero.NewRuntimeConfigInterpreter()
 	}
-	rc = rc.WithCompilationCache(sh.cache)
+	rc = rc.WithCompilationCache(sh.cache).WithCoreFeatures(api.CoreFeaturesV2 | experimental.CoreFeaturesThreads)
 	if closeOnDone {
 		rc = rc.WithCloseOnContextDone(true)
 	}
@@ -346,13 +347,13 @@ type StepObs struct {
 }
 
 type CaseObs struct {
-	ID     int       `json:"id"`
-	Engine string    `json:"engine"`
-	Err    string    `json:"err,omitempty"`
+	ID     int    `json:"id"`
+	Engine string `json:"engine"`
+	Err    string `json:"err,omitempty"`
 	// AfterClose: instances still open, or still answering calls without an exit error, after the final
 	// Runtime.CloseWithExitCode (empty = the runtime closed every instance, whatever failed before)
-	AfterClose string `json:"after_close,omitempty"`
-	Steps  []StepObs `json:"steps"`
+	AfterClose string    `json:"after_close,omitempty"`
+	Steps      []StepObs `json:"steps"`
 }
 
 func runCase(c *Case, engine string) CaseObs {
